@@ -188,7 +188,7 @@ func TestC11(t *testing.T) {
 	col.Assume(deploymentNote)
 	checkProp(t, "C11", col, func(c *caseCtx) {
 		rt := c.rt
-		nk := rapid.IntRange(1, 2).Draw(rt, "keys")
+		nk := rapid.IntRange(1, 3).Draw(rt, "keys")
 		var kinds []sim.Kind
 		for i := 0; i < nk; i++ {
 			kinds = append(kinds, kindFromDraw(rt))
@@ -253,9 +253,12 @@ func TestC11(t *testing.T) {
 		}
 		gateOn()
 		n := rapid.IntRange(3, 30).Draw(rt, "steps")
+		// how eagerly held updates are released (per case): often, seldom, or almost never - the last lets
+		// several pushes commit, and updates of several keys pile up, before one of them runs
+		releaseOneIn := rapid.SampledFrom([]int{2, 4, 8, 16}).Draw(rt, "release_one_in")
 		for i := 0; i < n; i++ {
 			pend := w.env.Mongo.Pending()
-			if len(pend) > 0 && rapid.IntRange(0, 3).Draw(rt, "release") == 0 {
+			if len(pend) > 0 && rapid.IntRange(1, releaseOneIn).Draw(rt, "release") == 1 {
 				pi := rapid.IntRange(0, len(pend)-1).Draw(rt, "which")
 				if pi != 0 {
 					outOfOrder = true
@@ -276,6 +279,25 @@ func TestC11(t *testing.T) {
 				}
 				gateOn()
 				continue
+			}
+			if rapid.IntRange(0, 9).Draw(rt, "push_burst") < 4 {
+				// a push: one local operation on a datatype that may take one, then the sync of its client
+				type cand struct{ ci, ki int }
+				var cands []cand
+				for ci, cl := range w.clients {
+					for ki, k := range w.keys {
+						if d := cl.dts[k.Name]; d != nil && d.entered {
+							cands = append(cands, cand{ci, ki})
+						}
+					}
+				}
+				if len(cands) > 0 {
+					x := cands[rapid.IntRange(0, len(cands)-1).Draw(rt, "burst_target")]
+					call := genLocalCall(rt, w.keys[x.ki].Kind, w.clients[x.ci].dts[w.keys[x.ki].Name].dt, false)
+					step(l1Action{K: "local", C: x.ci, Key: x.ki, Call: &call})
+					step(l1Action{K: "sync", C: x.ci})
+					continue
+				}
 			}
 			a := genL1Action(rt, w, 3)
 			if a.K == "settle" {
